@@ -3,8 +3,10 @@ Model of `concurrent.Promise` (concurrent/promise.go), core Lean only.
 
 Sequential layer: the mailbox (`message chan Result`, capacity 1) is `Option Res`; the
 methods `fulfill`, `fail`, `Recover`, `Break` are pure functions on it that mirror the code
-(quirks included: `Recover` on a non-recoverable promise drops the message; `Fail` succeeds on
-a promise fulfilled with a nil value).
+.  `fail` tests the `set` flag of `messageState` (fix 0095d35; as found it tested
+"value and error both nil", so a promise fulfilled with nil could still be failed); `Recover`
+touches the mailbox only when the promise is recoverable (fix 5f9d169; as found a refused
+Recover dropped the message).
 
 Concurrent layer: a labelled transition system (Biogo.Go.LTS).  Every actor performs one
 call.  Fulfill/Fail/Recover/Break run entirely under the promise's mutex and contain no hook,
@@ -67,17 +69,18 @@ def fulfill (f : Flags) (box : Option Res) (v : Option Nat) : Option Res × Opti
 
 /-- `(*Promise).fail` -/
 def fail (box : Option Res) (v : Option Nat) (e : Option ErrV) : Option Res × Bool :=
-  let (r, _) := messageState box
-  if r.err.isNone && r.val.isNone then
+  let (r, set) := messageState box
+  if !set then
     (some { val := (if v.isSome then v else r.val), err := e }, true)
   else (some r, false)
 
 /-- `(*Promise).Recover` -/
-def recover (f : Flags) (_box : Option Res) (v : Option Nat) : Option Res × Bool :=
-  -- the message is taken and not put back
+def recover (f : Flags) (box : Option Res) (v : Option Nat) : Option Res × Bool :=
   if f.recoverable then
+    -- the message is taken and not put back; a non-nil value is then `fulfill`ed into the
+    -- empty mailbox
     if v.isSome then ((fulfill f none v).1, true) else (none, true)
-  else (none, false)
+  else (box, false)
 
 /-- `(*Promise).Break` -/
 def brk (_box : Option Res) : Option Res := none
@@ -163,11 +166,11 @@ def cur (s : St) : Option Res :=
       | _ => none
     | none => none
 
-/-- a call within the scope of the single-assignment property: Fulfill of a non-nil value,
-    Fail with a non-nil error, Wait -/
+/-- a call within the scope of the single-assignment property: Fulfill, Fail (any values, nil
+    included: the message `{nil, nil}` counts as set), Wait -/
 def Call.inScope : Call → Bool
-  | .fulfill (some _) => true
-  | .fail _ (some _) => true
+  | .fulfill _ => true
+  | .fail _ _ => true
   | .wait => true
   | _ => false
 
@@ -189,5 +192,31 @@ def APc.isDone : APc → Bool
   | _ => false
 
 def allDone (s : St) : Bool := s.pcs.all APc.isDone
+
+/-! ### the sequential specification that every schedule refines (Properties/C19_promise.lean) -/
+
+/-- one call executed atomically on the promise (the sequential semantics of promise.go);
+    `none`: a Wait on an empty promise blocks -/
+def seqCall (f : Flags) (box : Option Res) : Call → Option (Option Res × Ret)
+  | .wait => box.map fun r => (some r, .res r)
+  | call => some (atomicCall f box call)
+
+/-- a sequential history: the events `(call index, return value)` executed one after another;
+    the result is the final content, `none` if some event is impossible at its place -/
+def seqExec (f : Flags) (calls : List Call) : Option Res → List (Nat × Ret) → Option (Option Res)
+  | b, [] => some b
+  | b, (i, ret) :: rest =>
+    match calls[i]? with
+    | some call =>
+      match seqCall f b call with
+      | some (b', ret') => if ret' = ret then seqExec f calls b' rest else none
+      | none => none
+    | none => none
+
+/-- the return value of a call that has passed its linearisation point (for a Wait: the take) -/
+def lp : APc → Option Ret
+  | .start => none
+  | .borrowed r => some (.res r)
+  | .done ret => some ret
 
 end Biogo.Promise
